@@ -161,6 +161,12 @@ ERR_PRELUDE = [
     [S("defmacro"), S("m-tmpl-arity"), [S("a")], [S("quasiquote"), [S("car"), [S("unquote-splicing"), [S("list"), S("a"), 1, 2]]]]],
     [S("defmacro"), S("m-built-call"), [S("a")], [S("list"), S("car"), S("a"), 2]],
     [S("defmacro"), S("m-built-unbound"), [S("a")], [S("quasiquote"), [S("list"), [S("unquote"), S("a")], S("unbound-in-template")]]],
+    # templates whose splice is NOT the single trailing one: the form around it keeps the position it was written at
+    [S("defmacro"), S("m-splice-mid"), [S("a")], [S("quasiquote"), [S("car"), [S("unquote-splicing"), [S("list"), S("a")]], 2]]],
+    [S("defmacro"), S("m-splice-two"), [S("a")], [S("quasiquote"), [S("list"), [S("unquote-splicing"), [S("list"), 1]], [S("unquote-splicing"), [S("list"), S("a")]], [S("error"), Q(S("in-template")), 2]]]],
+    [S("defmacro"), S("m-splice-body"), [S("&rest"), S("body")], [S("quasiquote"), [S("progn"), [S("unquote-splicing"), S("body")], [S("error"), Q(S("in-template")), 3]]]],
+    [S("defmacro"), S("m-splice-first"), [S("&rest"), S("body")], [S("quasiquote"), [S("let"), [[S("q"), 1]], [S("unquote-splicing"), S("body")], [S("car"), S("q"), S("q")]]]],
+    [S("defmacro"), S("m-splice-nested"), [S("a")], [S("quasiquote"), [S("list"), 0, [S("+"), [S("unquote-splicing"), [S("list"), 1, S("a")]], [S("car"), 5]]]]],
     [S("defun"), S("deep-fail"), [S("d")], [S("if"), [S("<="), S("d"), 0], [S("car"), 1, 2], [S("+"), 1, [S("deep-fail"), [S("-"), S("d"), 1]]]]],
 ]
 ERR_LEAVES = [
@@ -184,6 +190,12 @@ ERR_LEAVES = [
     lambda r: [S("m-tmpl-arity"), Q([9])],
     lambda r: [S("m-built-call"), Q([1])],
     lambda r: [S("m-built-unbound"), 3],
+    lambda r: [S("m-splice-mid"), Q([1])],
+    lambda r: [S("m-splice-two"), 4],
+    lambda r: [S("m-splice-body"), [S("probe"), Q(S("in-body"))], 1],
+    lambda r: [S("m-splice-body")],
+    lambda r: [S("m-splice-first"), 1, 2],
+    lambda r: [S("m-splice-nested"), 2],
     lambda r: [S("deep-fail"), r.randrange(4)],
     lambda r: [[S("lambda"), [S("a")], [S("car"), S("a"), S("a")]], 1],
     lambda r: [S("funcall"), Q(S("car")), 1, 2],
